@@ -39,6 +39,12 @@ func checkC01(r *Report, p *Program) {
 	// the server-side-apply memo is per child object
 	keyCompleteness(r, p, "R01.3", "lastUpdateCacheKey")
 	noNewCrossSyncState(r, p, "R01.4")
+	// an adoption establishes the controller reference in one write (else every sync adopts again) — shared with C02/C04
+	ownerRefEdits(r, p, "R01.5")
+	// the copies taken for a debug diff / the merge never alias the object about to be sent or the cached one — shared with C17
+	r17_1(r, p)
+	// the rollout gate adds no wait the property does not state (else the rollout never converges) — shared with C07
+	r07_3(r, p)
 }
 
 func r01_children(r *Report, p *Program) {
